@@ -6,7 +6,10 @@ Every action has an interval in which it took place: from the stamp of its threa
 recorder takes a stamp right after each operation, from one global counter; a hidden step lies between the two events around
 it).  Hence b precedes a whenever hi(b) < lo(a).  Depth-first search over the admissible next actions of the threads, in
 stamp order, with a small model of the shared words supplied by the caller (enabled / apply on an immutable state);
-independent actions (observations, marks) are taken first and without alternative; states proved dead are not entered twice."""
+independent actions (observations, marks) are taken first and without alternative; states proved dead are not entered twice.
+The search has a step budget (no wall-clock limit: machine load does not change its answer for a given recording); when it gives
+up the caller falls back to the recorder's stamps, and a round that then cannot be replayed is NOT a verdict by itself: the callers
+count it and record the scenario once more (lib/props/c08.py, c09.py: judge_seed)."""
 
 
 class Act:
